@@ -16,7 +16,9 @@ RULE = (
     "set of already existing tables. The emitted PostgreSQL DDL (mock connection) is parsed back to "
     "CREATE(inline fks)/ALTER ADD/DROP/ALTER DROP and compared with the model plan (the ALTER block, "
     "whose order is a set iteration order, is compared as a set). non-trivial = at least one FK or "
-    "dependency between two different tables (distribution counts cyclic graphs separately)"
+    "dependency between two different tables (distribution counts cyclic graphs separately). Kind "
+    "sqlite-live (oracle only, not modelled): create_all then drop_all really executed on in-memory "
+    "SQLite with foreign_keys=ON (dialect without ALTER), catalog compared with the metadata"
 )
 TRUSTED = [
     "hand-written Gallina transcription of sql/ddl.py sort_tables_and_constraints, "
@@ -107,6 +109,8 @@ def _case(op, tables, kind, existing=None, checkfirst=0):
         existing = names if op == 1 else []
     if op == 2:
         existing, checkfirst = [], 0
+    if op == 3:
+        existing = []
     return {"in": [op, existing, checkfirst, tables], "kind": kind}
 
 
@@ -169,7 +173,7 @@ def gen_cases(rng, tier):
                     # thorough: one create and one drop per graph
                     cases.append(_case(0, _mk(order, g, pats[2]), kind))
                     cases.append(_case(1, _mk(order, g, pats[rng.choice([0, 2])]), kind))
-                    if rng.random() < 0.25:
+                    if rng.random() < 0.05:
                         cases.append(_case(2, _mk(order, g, pats[2]), kind))
                     continue
                 if oi == 0:
@@ -189,6 +193,17 @@ def gen_cases(rng, tier):
             cases.append(_case(op, tables, "random-checkfirst", _closed_subset(rng, tables), 1))
         else:
             cases.append(_case(op, tables, "random"))
+    # live SQLite (a dialect WITHOUT ALTER: everything inline, drop order unsorted on cycles): create_all
+    # then drop_all really executed; outside the Coq model (no referee for existence there), oracle only
+    for _ in range(1500 if tier == "thorough" else 250):
+        tables = _random_md(rng, 6)
+        for t in tables:
+            t[2] = [p for p in t[2] if p != t[0]]
+        if _has_cycle(_deps([[n, [], e] for n, _, e in tables]), {t[0] for t in tables}):
+            continue
+        c = _case(3, tables, "sqlite-live", [], rng.randint(0, 1))
+        c["model"] = False
+        cases.append(c)
     return cases
 
 
@@ -367,8 +382,47 @@ def _emit(op, existing, checkfirst, tables):
     return out, 0
 
 
+def _live_sqlite(checkfirst, tables):
+    """create_all then drop_all on a real in-memory SQLite with foreign keys enforced"""
+    import warnings
+
+    from sqlalchemy import create_engine, event, text
+
+    md = _build(tables)
+    eng = create_engine("sqlite://", connect_args={"autocommit": False})
+
+    @event.listens_for(eng, "connect")
+    def _fk_on(dbapi_con, rec):
+        dbapi_con.execute("PRAGMA foreign_keys=ON")
+
+    def snapshot(conn):
+        names = [r[0] for r in conn.execute(text("select name from sqlite_master where type='table' order by name"))]
+        out = []
+        for n in names:
+            refs = sorted({(r[0], int(r[2][1:])) for r in conn.execute(text("PRAGMA foreign_key_list(%s)" % n))})
+            out.append([int(n[1:]), sorted(ref for _, ref in refs)])
+        return out
+
+    with warnings.catch_warnings():
+        warnings.simplefilter("ignore")
+        try:
+            with eng.begin() as conn:
+                md.create_all(conn, checkfirst=bool(checkfirst))
+                after_create = snapshot(conn)
+            with eng.begin() as conn:
+                md.drop_all(conn, checkfirst=bool(checkfirst))
+                after_drop = snapshot(conn)
+        except Exception as e:  # any error is an observation here
+            return [5, [ord(ch) for ch in type(e).__name__[:30]]]
+        finally:
+            eng.dispose()
+    return [0, after_create, after_drop]
+
+
 def impl(c):
     op, existing, checkfirst, tables = c["in"]
+    if op == 3:
+        return _live_sqlite(checkfirst, tables)
     if op == 2:
         import warnings
 
@@ -456,6 +510,15 @@ class _Catalog:
 def oracle(c, obs):
     op, existing, checkfirst, tables = c["in"]
     names = [t[0] for t in tables]
+    if op == 3:
+        if obs[0] != 0:
+            return "create_all/drop_all on live SQLite raised %s" % "".join(chr(x) for x in obs[1])
+        want = sorted([t[0], sorted(f[1] for f in t[1])] for t in tables)
+        if obs[1] != want:
+            return "live SQLite catalog after create_all %s differs from the metadata %s" % (obs[1], want)
+        if obs[2]:
+            return "tables left on live SQLite after drop_all: %s" % (obs[2],)
+        return None
     if op == 2:
         fixed_cyc = _has_cycle(_deps([[n, [], e] for n, _, e in tables]), set(names))
         if obs == [1]:
